@@ -26,6 +26,11 @@ P = {
          "addresses are rendered at fixed family width; every crypto/rand.Int bound is a positive constant at all call sites or dominated by a positivity test (selection fails with an error instead of panicking); the family filter matching v6Support feeds each selection routine; "
          "the address is built only under offset < netSize with a two-sided subnet match; the port-randomisation flag flows from the matched subnet's configuration. Arithmetic containment for every CIDR and uniformity are not decided.",
          "4/C14"),
+ "C15": (True, "narrowing-conversion rule (bound / mask / round-trip idioms with dominance), sibling constant agreement, must-pass freshness, who-constructs names (go/ssa)",
+         "Decides for all inputs: no encoder in the registration channels narrows a length or count to uint8/uint16 unless the value provably fits (dominating bound, mask/shift, or round-trip test whose failing edge leaves the function), i.e. unrepresentable values are rejected, not altered; "
+         "encoder/decoder siblings agree on layout constants (hash slice bounds, complementary representative masks on the same byte, 32-byte header split, prefix widths); randomised obfuscators refill their ephemeral secret from crypto/rand on every path; names sent on the wire come from validating constructors. "
+         "The round trips themselves for every payload/key and the Noise exchange are value-level and not decided.",
+         "4/C15"),
  "C18": (True, "finite predicate abstraction of the Lookup conditions, guard dominance (polarity, nil tests, sibling wiring), lockset guarded-by, must-pass pairing (go/ssa)",
          "Decides: each cache Lookup answers true iff the key is present and its age is below the expiration (all valuations); probe results go to the cache of their verdict and hits return their cache's verdict; the probe is reached only on a double miss; "
          "Init wires each cache only from its own duration/capacity setting and passes the capacity it tested; every call through an optional cache is dominated by a nil test of the same field; cache maps only under their mutex; LRU inserts are registered, evictions delete under the lock, LRU sized by the configured capacity. "
